@@ -107,6 +107,19 @@ class ConnectorV:
         if self.state != "done":
             self.state = "dropped"
 
+    def mir_field(self, k):
+        """library code that looks into the connector (round 7: a `has_started()` helper matching on
+        `self.state`) sees the abstract dial state as the corresponding `ConnectorState` variant"""
+        if k == 0:
+            if self.state == "new":
+                return Enum("ConnectorState", "PollReadyTransport", 0, [Opaque("parts"), Opaque("transport"), Opaque("protocol")])
+            if self.state == "dialing":
+                return Enum("ConnectorState", "Connect", 1, [Opaque("future"), Opaque("protocol")])
+            return Enum("ConnectorState", "Handshake", 3, [Opaque("future"), Opaque("info")])
+        if k == 2:
+            return z3.BoolVal(bool(self.multiplex))
+        return Opaque(f"connector.{k}")
+
 
 @model("Connector::poll_connector", doc="mock connector: first poll starts the dial; Pending until the scheduler completes it (ok: a fresh connection for the request's origin and protocol; err: Error::Connecting)")
 def _poll_connector(ctx, a, c):
@@ -175,6 +188,9 @@ class World:
         i = len(self.reqs)
         k = ConnectorV(self, i, proto == "h2", origin)
         co = self.ctx.exec_fn(self.fns["checkout"], [Ref(self.pool), z3.BitVecVal(origin, 64), z3.BoolVal(proto == "h2"), k])
+        # `kept`: Pool::checkout left the connector with the checkout (it is the request's own attempt, started
+        # or not); a pure waiter / an idle hit drops it right away
+        k.kept = k.state != "dropped"
         self.reqs.append({"i": i, "proto": proto, "origin": origin, "state": "active", "cell": Cell(co, f"checkout{i}"), "connector": k, "held": None, "result": None})
         self.woken.add(("req", i))
         self.collect_spawned()
@@ -541,9 +557,9 @@ def obligations(prog, src, tier, seed, which="C03", n_req=2, depth=5, classes=("
         if "C14" in classes:
             # second clause of C14: what becomes of an attempt whose request was pre-empted or cancelled
             if w.cont:
-                for k in w.dials_started:
-                    if k.state == "dropped":
-                        props.append((f"[C14] continue_after_preemption is on, yet the connection attempt of request {k.req} was dropped when the request was pre-empted / cancelled instead of completing in the background  -- schedule: {w.trace}", False))
+                for k in [r["connector"] for r in w.reqs]:
+                    if k.state == "dropped" and (k in w.dials_started or getattr(k, "kept", False)):
+                        props.append((f"[C14] continue_after_preemption is on, yet the connection attempt of request {k.req} ({'started' if k in w.dials_started else 'not yet started'}) was dropped when the request was pre-empted / cancelled instead of completing in the background  -- schedule: {w.trace}", False))
             else:
                 for t in w.bg:
                     if t["kind"] == "delayed":
@@ -612,6 +628,10 @@ def obligations(prog, src, tier, seed, which="C03", n_req=2, depth=5, classes=("
             got = r.get("conn").cid if r["state"] == "holding" and r.get("conn") is not None else None
             fate = []
             own = [k for k in w.dials_started if k.req == 0]
+            if not own and cont and getattr(r["connector"], "kept", False):
+                # pre-empted before its first poll: the attempt it held has not started yet, it still is the
+                # request's attempt and continues in the background when the setting is on
+                own = [r["connector"]]
             if own:
                 if cont:
                     fate.append((f"[C14] continue_after_preemption is on, yet the pre-empted request's own attempt was dropped instead of continuing in the background ({proto} request, polled {polls_before}x)", own[0].state != "dropped"))
